@@ -145,6 +145,28 @@ Sixth round (blocks marked `x6`; run-time additions in ``lean/PkgModel/PyPlat.le
                ``PyMd.setattr_dyn``), ``del instance._raw[k]`` is ``PyMd.del_field_item``, the reflective
                ``getattr(self, f"_process_{self.name}")`` with its ``AttributeError`` fall-through is a dispatcher over the
                ``_process_*`` methods the class defines, and the function hands back ``(value, instance)``
+Seventh round (blocks marked `x7`; run-time additions in ``lean/PkgModel/PyX7.lean``, model additions in ``lean/PkgModel/Repr.lean``):
+  values       ``{v!r}`` (``PyRt.repr``: None / bool / int / ASCII str), ``<compiled global>.split(s)`` for a pattern that is one
+               character class (ranges swept from the interpreter's parser), ``getattr(obj, f"<prefix>{…}")`` on an instance of
+               a tracked class without tracked subclasses (a bound-method value by name; every ``<prefix>*`` attribute of the class
+               must be a plain function), ``obj.<class-level dict of constants>[k]``, ``isinstance(x, bytes)`` and
+               ``isinstance(x, <class of another library>)`` by class name
+  exceptions   the functions in ``X7_MX_FUNCTIONS`` run in ``PyX7.MX`` (exception objects): ``raise <expr>``, ``except C as e`` (``e`` is
+               the object, a legacy class name appears as an object without attributes), ``assert``; constructors of exception
+               classes: a class of the library with a Python-level ``__init__`` through its translation, *message parameters* (only
+               handed to ``super().__init__``) receive ``None`` and their argument — which must be a pure text — is not evaluated;
+               ``ExceptionGroup(msg, xs)`` is ``PyX7.exception_group xs``; builtin classes are objects without attributes; a local
+               that only holds message texts for such constructors is dropped; ``X.__cause__ = e`` has no effect;
+               ``super().__init__(…)`` in the ``__init__`` of an exception class has no effect
+  classmethods the ``cls`` parameter is dropped (``cls`` = the defining class, refused when it has subclasses): ``cls()``,
+               ``cls.__dict__.get(k)`` (the table ``<Class>.__descriptors`` of descriptor objects generated from the class),
+               ``cls.<classmethod>(…)``; ``ins = cls()`` makes ``ins`` the instance local: ``ins.x = e``, ``v = ins.<descriptor>`` and
+               ``getattr(ins, key)`` (generated ``<Class>.__getattr__dyn``; rebinds ``ins``)
+  metadata     ``frozenset(d) | <module frozenset>``, ``s -= {constants}``, ``sorted(s, key=str)`` (str members), ``<module list>.index(x)``,
+               ``<module dict>[k]`` / ``k in <module dict>``, ``d.copy()`` on a parameter annotated with a dict type (TypedDict),
+               ``for k in d`` where ``d`` comes from a call annotated ``-> tuple[…, dict[…]]``; parameters annotated
+               ``email.message.Message`` are message *values* (``PyX7.msg_*``): ``del msg[k]`` rebinds the parameter (not seen by the
+               caller), ``msg.get_payload(decode=…)``; ``b.decode("utf8", "strict")``
 Checks made by the translator (a failure makes the function unsupported):
   * a local changed inside a ``try`` body (other than by its last simple statement) must not be read in a handler or after
     a handler that falls through: Lean's ``try … catch`` restores the locals of the ``try`` start;
